@@ -274,6 +274,7 @@ func verdict(prop, tier string, seed int, reports []*entryReport, broken []strin
 	entriesOut := []map[string]interface{}{}
 	bounds := map[string]interface{}{}
 	diffAgree, diffTotal := 0, 0
+	knownSeen := map[string]*knownState{}
 	for _, r := range reports {
 		rr := r.RR
 		states += rr.Completed
@@ -340,10 +341,16 @@ func verdict(prop, tier string, seed int, reports []*entryReport, broken []strin
 				for _, k := range known {
 					if k.Property == prop && k.Label == v.Known && k.Status == "open" {
 						matched = true
-						if conf == "confirmed" || noNative {
-							knownLines = append(knownLines, fmt.Sprintf("KNOWN-FINDING: property=%s %s (%s)", prop, k.What, v.Label))
-						} else {
-							incon = append(incon, fmt.Sprintf("%s: known finding %s did not reproduce natively (%s)", r.Entry, v.Label, conf))
+						st := knownSeen[k.Label]
+						if st == nil {
+							st = &knownState{what: k.What, label: v.Label, entry: r.Entry}
+							knownSeen[k.Label] = st
+						}
+						switch {
+						case conf == "confirmed" || noNative:
+							st.confirmed = true
+						case conf == "not-reproduced":
+							st.notReproduced = true
 						}
 					}
 				}
@@ -392,6 +399,14 @@ func verdict(prop, tier string, seed int, reports []*entryReport, broken []strin
 		sort.Strings(o)
 		return o
 	}
+	for _, st := range knownSeen {
+		if st.confirmed {
+			knownLines = append(knownLines, fmt.Sprintf("KNOWN-FINDING: property=%s %s (%s)", prop, st.what, st.label))
+		} else {
+			incon = append(incon, fmt.Sprintf("%s: known finding %s did not reproduce natively", st.entry, st.label))
+		}
+	}
+	sort.Strings(knownLines)
 	knownLines = dedupe(knownLines)
 	for _, l := range knownLines {
 		fmt.Println(l)
@@ -492,4 +507,9 @@ func solversUsed(reports []*entryReport) []string {
 		}
 	}
 	return out
+}
+
+type knownState struct {
+	what, label, entry       string
+	confirmed, notReproduced bool
 }
